@@ -291,6 +291,32 @@ theorem C09_store_first_witness :
     ((pushIn true (fun q => q == [0, 0]) [] exRefuse (build exRefuse) 0 (.c 5)).1.get .inp 0 = .c 5) := by
   decide
 
+/-- replacing a child inside a macro (`replace_child`, `replace_with`, `macro.label = Class`): the
+replacement takes the replaced node's keyword arguments, connections, values and label. Every macro input
+is linked to the same (child, input) position as before — whatever labels the siblings share, however many
+parameters are value-linked — and on the very same channel values the synchronisation invariant holds for
+the new definition; hence (`C09_inline`) the next run gives the plain composition of the NEW body -/
+theorem C09_replace_keeps_links (h : Bool) (args : List Arg) (body : List Node) (rets : List Ret) (oh : List Nat)
+    (s : List Src) (j g : Nat) (σ : St) :
+    (∀ k, link (setF body j g) rets k = link body rets k) ∧
+    (Inv h (.mac args (setF body j g) rets oh s) σ ↔ Inv h (.mac args body rets oh s) σ) :=
+  ⟨fun k => link_setF body rets j g k, inv_setF h args body rets oh s j g σ⟩
+
+/-- two tracks `c0 = F0(a=x0)`, `c1 = F1(a=x1)`, both parameters single-use, both consumers' input labelled `a` -/
+def exTracks : Node :=
+  .mac [⟨.c 1, 0⟩, ⟨.c 2, 0⟩] [.leaf 0 [.arg 0, .none, .none], .leaf 1 [.arg 1, .none, .none]]
+    [.out 0 0, .out 1 0] [0, 0] []
+
+/-- matching the links to hand over by LABEL instead of identity (not the code): replacing `c0` steals the
+sibling's parameter — `x1` then forwards to `c0.a`, `c1.a` is linked to nothing — while the real rule
+leaves `x1 → c1.a` -/
+theorem C09_replace_by_label_witness :
+    link (setF [.leaf 0 [.arg 0, .none, .none], .leaf 1 [.arg 1, .none, .none]] 0 5) [.out 0 0, .out 1 0] 1
+      = .child 1 0 ∧
+    link (stealByLabel [.leaf 0 [.arg 0, .none, .none], .leaf 1 [.arg 1, .none, .none]] [.out 0 0, .out 1 0] 0 2)
+      [.out 0 0, .out 1 0] 1 = .child 0 0 := by
+  decide
+
 /-- "whichever side is updated", read literally: also an assignment to a child-level input keeps
 every link -/
 def C09_links_sync_Statement : Prop :=
@@ -486,6 +512,16 @@ def exMid : Node :=
 def exTop : Node :=
   .mac [⟨.nd, 0⟩] [.leaf 3 [.arg 0, .none, .none], exMid, .leaf 4 [.out 1 0, .out 1 1, .none]] [.out 2 0] [0] []
 
+/-- a nested macro loaded in place whose inputs stay linked to the DISCARDED children (KF-C09-4): an
+assignment arriving at the nested macro's input stops there. On `exRefuse` (outer parameter → nested macro's
+single-use parameter → leaf): assigned without forwarding the link is broken — the nested input shows `c7`,
+its consumer still `c1` —, assigned through the setter it holds -/
+theorem C09_inplace_load_witness :
+    (((build exRefuse).modAt [0] (fun τ => τ.set .inp 0 (.c 7))).atPath [0]).get .inp 0 = .c 7 ∧
+    (((build exRefuse).modAt [0] (fun τ => τ.set .inp 0 (.c 7))).atPath [0, 0]).get .inp 0 = .c 1 ∧
+    ((setInAt exRefuse (build exRefuse) [0] 0 (.c 7)).atPath [0, 0]).get .inp 0 = .c 7 := by
+  decide
+
 example : buildErr Cfg.pinned exTop = false ∧ buildErr Cfg.repaired exTop = false := by decide
 
 example : (run exTop (setIn exTop (build exTop) 0 (.c 1))).map (fun σ => σ.get .out 0) =
@@ -552,6 +588,9 @@ end PwVerif.C09
 #print axioms PwVerif.C09.C09_store_first_witness
 #print axioms PwVerif.C09.C09_factory_fresh_class
 #print axioms PwVerif.C09.C09_factory_stale_witness
+#print axioms PwVerif.C09.C09_replace_keeps_links
+#print axioms PwVerif.C09.C09_replace_by_label_witness
+#print axioms PwVerif.C09.C09_inplace_load_witness
 #print axioms PwVerif.C09.C09_links_sync_receiving_witness
 #print axioms PwVerif.C09.C09_links_sync_not_statement
 #print axioms PwVerif.C09.C09_dup_return_repaired
